@@ -53,7 +53,22 @@ ObsEq(o, x) == /\ DOMAIN o = DOMAIN x
                /\ \A n \in DOMAIN x : /\ o[n].found = x[n].found
                                       /\ VEq(o[n].node, x[n].node) /\ VEq(o[n].prod, x[n].prod)
                                       /\ VEq(o[n].a0, x[n].a0) /\ VEq(o[n].a300, x[n].a300)
-ObsOK(e) == Expect(ObsEq(e.obs, ExpectedObs'), ExpectedObs')
+\* non-vacuity statistics (only when VERIF_STATS is set; never part of a verdict): for every pod placed on a node that
+\* has a report, which clause decides whether the report reflects it, and how it counts for the prod view
+PlacedPairs == UNION {{<<n, u>> : u \in DOMAIN assigned[n]} : n \in {x \in cfg.nodes : metric[x].found}}
+EstCat(pr) == LET m == metric[pr[1]]  i == assigned[pr[1]][pr[2]]  r == Reported(m, i.pod.name)
+              IN  IF ~i.hasEst THEN "noest" ELSE IF ~r.has THEN "norep" ELSE IF m.ut = None THEN "notime"
+                  ELSE IF m.ut - m.ri < i.ts THEN "interval" ELSE IF i.dl # None /\ i.dl > m.ut THEN "deadline"
+                  ELSE "reflected"
+ProdCat(pr) == LET m == metric[pr[1]]  i == assigned[pr[1]][pr[2]]  r == Reported(m, i.pod.name)
+               IN  IF ~i.prod THEN "nonprod" ELSE IF ActiveProd(m, i) THEN "prodActive"
+                   ELSE IF r.has THEN "prodReportedAsOther" ELSE "prodUnreported"
+StatCats == <<"noest", "norep", "notime", "interval", "deadline", "reflected",
+              "nonprod", "prodActive", "prodReportedAsOther", "prodUnreported">>
+Stats == [k \in 1..Len(StatCats) |-> Cardinality({pr \in PlacedPairs : EstCat(pr) = StatCats[k] \/ ProdCat(pr) = StatCats[k]})]
+StatOK == IF "VERIF_STATS" \in DOMAIN IOEnv THEN PrintT(<<"STAT", Stats'>>) ELSE TRUE
+
+ObsOK(e) == Expect(ObsEq(e.obs, ExpectedObs'), ExpectedObs') /\ StatOK
 
 Keep == UNCHANGED <<cfg>>
 
